@@ -1,6 +1,7 @@
 (* VtmfVerModel: executable model of the verifiers of the VTMF layer (C05, reused by C04).
    Anchors (src/BarnettSmartVTMF_dlog.cc): CheckElement 232-256, KeyGenerationProtocol_VerifyNIZK 331-370,
-   KeyGenerationProtocol_VerifyKey_interactive 538-586 (and _publiccoin 588-640), CP_Verify 690-752, OR_Verify 840-885,
+   KeyGenerationProtocol_VerifyKey_interactive 538-586 (and _publiccoin 588-640; since 0abf554 the key is membership-tested,
+   since de8b018 tmcg_mpz_fpowm reads the sign of x before writing res, so the aliased call fpowm(table, m_2, g, m_2, p) inverts), CP_Verify 690-752, OR_Verify 840-889 (since fae6d38 with the range check of c_1, c_2),
    VerifiableMaskingProtocol_Verify 925-952, VerifiableRemaskingProtocol_Verify 1020-1052,
    VerifiableDecryptionProtocol_Verify_Update 1083-1125; src/mpz_spowm.cc tmcg_mpz_fpowm 195-235.
    The hash (tmcg_mpz_shash of the '|'-terminated hex serialisation, FsModel.fs_ser) is a function argument H on the
@@ -35,19 +36,12 @@ Definition mpz_powm (b e p : Z) : option Z :=
 Definition table_walk (tl b ax p : Z) : Z :=
   if ax =? 0 then 1 else if bits ax <=? tl then powm b ax p else 0.
 
-(* tmcg_mpz_fpowm(table, res, m, x, p) with res and x distinct objects; None = exception *)
+(* tmcg_mpz_fpowm(table, res, m, x, p); res may alias x (the sign is read first); None = exception *)
 Definition fpowm (tb tl b x p : Z) : option Z :=
   if negb (b =? tb) then None
   else if TMCG_MAX_FPOWM_T <? bits (Z.abs x) then None
   else let v := table_walk tl b (Z.abs x) p in
        if x <? 0 then invm v p else Some v.
-
-(* the same call with res and x being the same mpz_t (VerifyKey_interactive: fpowm(table, m_2, g, m_2, p)):
-   the sign of x is read again after res (= x) has been overwritten, so the inversion never happens *)
-Definition fpowm_aliased (tb tl b x p : Z) : option Z :=
-  if negb (b =? tb) then None
-  else if TMCG_MAX_FPOWM_T <? bits (Z.abs x) then None
-  else Some (table_walk tl b (Z.abs x) p).
 
 (* ---- non-interactive key-share proof: KeyGenerationProtocol_VerifyNIZK(foo, c, r) ---- *)
 Definition key_hash_input (G : grp) (foo t2 : Z) : list Z := [gp G; gq G; gg G; foo; t2].
@@ -67,9 +61,9 @@ Definition key_verify (H : list Z -> Z) (G : grp) (foo c r : Z) : verdict :=
 
 (* ---- interactive key-share proof, after the three moves (m_1, c, m_2); c is the verifier's own value ---- *)
 Definition keyint_verify (G : grp) (key m1 c m2 : Z) : verdict :=
-  if negb (check_element G m1) then Reject
+  if negb (check_element G m1 && check_element G key) then Reject
   else if gq G <=? Z.abs m2 then Reject
-  else match fpowm_aliased (gtg G) (tlen G) (gg G) m2 (gp G) with
+  else match fpowm (gtg G) (tlen G) (gg G) m2 (gp G) with
        | None => Throw
        | Some v =>
          match mpz_powm key c (gp G) with
@@ -140,6 +134,7 @@ Definition or_hash_input (G : grp) (g1 y1 g2 y2 t1 t2 : Z) : list Z := [gp G; gq
 
 Definition or_verify (H : list Z -> Z) (G : grp) (y1 y2 g1 g2 c1 c2 r1 r2 : Z) : verdict :=
   if (gq G <=? Z.abs r1) || (gq G <=? Z.abs r2) then Reject
+  else if (gq G <=? Z.abs c1) || (gq G <=? Z.abs c2) then Reject
   else match mpz_powm y1 c1 (gp G), mpz_powm g1 r1 (gp G), mpz_powm y2 c2 (gp G), mpz_powm g2 r2 (gp G) with
        | Some a1, Some b1, Some a2, Some b2 =>
          let t1 := (a1 * b1) mod gp G in
